@@ -4,8 +4,9 @@
    crossing predicate translated from geometry.pyx on this run
    (Gen/PnpolyGen.v); the proofs go through Bridge/C15_bridge.v
    (gen_cross = model_cross).  Coordinates are exact rationals. *)
+From Coq Require Import String.
 From Coq Require Import ZArith QArith List Bool.
-From Verif Require Import Model.C15 Proofs.C15 Gen.PnpolyGen Bridge.C15_bridge.
+From Verif Require Import Model.C15 Proofs.C15 Proofs.C15_persist Gen.PnpolyGen Bridge.C15_bridge.
 Import ListNotations.
 Open Scope Q_scope.
 
@@ -87,3 +88,39 @@ Theorem C15_sweep :
     /\ (winding4 poly p mod 4 = 0)%Z.
 Proof. exact gen_sweep. Qed.
 Print Assumptions C15_sweep.
+
+(* .poly persistence (character-level model of save/save_all/_load/import_all,
+   with the two proposed repairs: 17 significant digits, split at the first "=").
+   For every number format whose printing round-trips and has the shape of a
+   token, every list of filters with distinct non-negative identifiers not yet
+   registered, lower-case axes, at least one point and names without line
+   breaks or leading/trailing blanks: import_all (save_all fs) returns exactly
+   fs (axes, inversion, name, identifier, coordinates, order) and registers
+   their identifiers. *)
+Theorem C15_roundtrip_partial :
+  forall (F : Type) (fmtf : F -> str) (parsef : str -> option F)
+         (fmt8 : Z -> str) (parse_int : str -> option Z),
+    (forall v, parsef (fmtf v) = Some v) ->
+    (forall v, token_ok (fmtf v) = true) ->
+    (forall n, (0 <= n)%Z -> parse_int (fmt8 n) = Some n) ->
+    (forall n, (0 <= n)%Z -> digits_ok (fmt8 n) = true) ->
+    forall (fs : list (pfilter F)) (ids0 : list Z) (c0 : Z),
+      Forall (fun f => wf_filter f = true) fs ->
+      NoDup (map (f_id F) fs) ->
+      (forall f, In f fs -> ~ In (f_id F f) ids0) ->
+      exists c',
+        import_all F parsef parse_int (save_all F fmtf fmt8 fs) (ids0, c0)
+        = (LOk fs, (ids0 ++ map (f_id F) fs, c')).
+Proof. exact roundtrip_partial. Qed.
+Print Assumptions C15_roundtrip_partial.
+
+(* The guard on names cannot be dropped (finding C15-name-blanks): a name with
+   a leading blank is reloaded without it, a name with a line break makes
+   import_all raise ValueError. *)
+Theorem C15_roundtrip_refuted :
+  (exists f : pfz, wf_filter f = false /\ name_ok (f_name Z f) = false
+                   /\ import_c (save_c [f]) = LOk [mkpf Z 0 (zs "area_um") (zs "deform") (zs "a") false ex_tri]
+                   /\ import_c (save_c [f]) <> LOk [f])
+  /\ (exists f : pfz, name_ok (f_name Z f) = false /\ import_c (save_c [f]) = LValueError).
+Proof. exact roundtrip_refuted. Qed.
+Print Assumptions C15_roundtrip_refuted.
